@@ -20,7 +20,9 @@ suite `build`: `to_marrow(fields, rows)`.
   spec  : C01 decode(impl arrays) = interp(rows)      (SaModel/Spec/{Decode,Interp})
           C03 WF field array (= structurally valid, `WFS`, AND `Spec.typeOf array = field.dataType`), one length, one array
               per field (SaModel/Spec/WF); the same through `to_arrow` / `to_record_batch` / `to_arrow2` (`backendC03`:
-              arrow-rs `validate_full`, `data_type()` of every array = the field's, the batch is built) — for EVERY accepted input, rows
+              arrow-rs `validate_full`, `data_type()` of every array = the field's, the batch is built) and on the marrow
+              arrays themselves handed to arrow-rs (`marrowArrowC03`, key "arrow": `validate_full` ok, the batch's length;
+              not judged at positions of the suspects table) — for EVERY accepted input, rows
               with malformed key/value call streams (`containsMalformed`) included: since repo fix eafdf15 a Map builder
               refuses the streams that do not alternate and `C03_wfS` carries no hypothesis about them, so a malformed
               stream into a schema is never accepted with arrays that are not well formed
@@ -258,6 +260,34 @@ def backendC03 (fields : List Field) (nrows : Nat) (back : Json) : Option String
         sig := some s!"build/C03/batch={brun}/{(sus.headD "-")}"
   return (sig, tags)
 
+/-- C03 through the SECOND independent oracle (`harness/src/suites/build.rs`, key "arrow"): every marrow array `to_marrow`
+returned is handed to arrow-rs (`ArrayRef::try_from`, marrow's conversion — not `serde_arrow::to_arrow`) and must pass
+`validate_full` with the batch's length.  Per array the harness records `{"ok": len}`, `{"err": …}` (`validate_full`
+refuses), `{"conv_err": …}` (the conversion refuses) or `{"panic": true}` (conversion or validation unwinds).  Classes
+only, no message text.  A conversion that refuses or unwinds, or a length that differs, at a position of the suspects
+table (`suspectsOfField "arrow"`: degenerate types on which third-party code breaks, recorded findings of C19 / C03) is not
+judged (tag); everywhere else anything but `ok` with the right length fails C03.  An absent key judges nothing.
+Returns the signature of the first failure and coverage tags. -/
+def marrowArrowC03 (fields : List Field) (nrows : Nat) (arrow : Json) : Option String × List String := Id.run do
+  let entries := match arrow with | .arr a => a.toList | _ => []
+  let mut tags : List String := []
+  let mut sig : Option String := none
+  for (f, e) in fields.zip entries do
+    let susF := (suspectsOfField "arrow" f).headD ""
+    let tail := if susF == "" then f.dataType.ctor else s!"{f.dataType.ctor}~{susF}"
+    let cls :=
+      if (e.getObjVal? "ok").isOk then "ok" else if (e.getObjVal? "err").isOk then "err"
+      else if (e.getObjVal? "conv_err").isOk then "conv_err" else if (e.getObjVal? "panic").isOk then "panic" else "?"
+    if cls == "ok" then
+      if (e.getObjVal? "ok").toOption.bind (·.getNat?.toOption) == some nrows then tags := "marrow-arrow-checked" :: tags
+      else if susF != "" then tags := s!"marrow-arrow:length~{susF}" :: tags
+      else if sig.isNone then sig := some s!"build/C03/marrow-arrow/length/{tail}"
+    else if cls == "err" then
+      if sig.isNone then sig := some s!"build/C03/marrow-arrow/validate_full/{tail}"
+    else if susF != "" then tags := s!"marrow-arrow:{cls}~{susF}" :: tags
+    else if sig.isNone then sig := some s!"build/C03/marrow-arrow/{cls}/{tail}"
+  return (sig, tags.eraseDups)
+
 def annOfImpl (err : Json) : List (String × String) :=
   match err.getObjVal? "ann" with
   | .ok (.arr a) => a.toList.filterMap fun kv =>
@@ -291,7 +321,8 @@ def handle (j : Json) : Except String Verdict := do
         let wfAll := iarrs.length == fields.length &&
           (fields.zip iarrs).all (fun (f, a) => WF f a && (decodeAll a).length == rows.length)
         let (backSig, _) := backendC03 fields rows.length ((getOpt j "backends").getD Json.null)
-        pure (if wfAll && backSig.isNone then "na" else "fail")
+        let (maSig, _) := marrowArrowC03 fields rows.length ((getOpt j "arrow").getD Json.null)
+        pure (if wfAll && backSig.isNone && maSig.isNone then "na" else "fail")
       else pure "na" : Except String String)
     -- structural validity alone (Spec.WFS, without the type-equality clause): what the C16 / C05 clause below is about
     let wfsBad ← (if cls == "ok" then do
@@ -387,8 +418,11 @@ def handle (j : Json) : Except String Verdict := do
     -- no exemption for malformed call streams: whatever is accepted must be well formed (`C03_wfS` has no `rawOK`)
     -- … and the same on the arrow / arrow2 outputs (validate_full, data_type() = the field's, record batch)
     let (backSig, backTags) := backendC03 fields rows.length ((getOpt j "backends").getD Json.null)
+    -- … and on the marrow arrays themselves, taken over by arrow-rs (key "arrow": the second independent oracle)
+    let (maSig, maTags) := marrowArrowC03 fields rows.length ((getOpt j "arrow").getD Json.null)
+    let backSig := if backSig.isSome then backSig else maSig
     let c03 := if wfAll && backSig.isNone then "pass" else "fail"
-    let tags := backTags ++ tags
+    let tags := maTags ++ backTags ++ tags
     -- … and a malformed stream accepted with such arrays is also a C16 / C05 failure (see above)
     -- (structural validity, Spec.WFS: a column of another data type than declared — the type clause of Spec.WF — is C03's
     -- matter alone; thorough tier of C05, vp run #6: the known finding C03-map-entries-metadata met a malformed stream)
